@@ -158,8 +158,12 @@ func (r *Raft) onAppendEntriesRequest(req *appendReq, c *conn) (rpcResult, error
 	r.setState(Follower)
 	r.setLeader(req.src)
 
+	// the snapshot goroutine may publish a snapshot meanwhile: read the index
+	// once, under the lock it is written with
+	snapIndex, _ := r.snaps.latest()
+
 	// reply false if log at req.prevLogIndex does not match
-	if req.prevLogIndex > r.snaps.index {
+	if req.prevLogIndex > snapIndex {
 		if req.prevLogIndex > r.lastLogIndex {
 			return drain(prevEntryNotFound, nil)
 		}
@@ -220,7 +224,7 @@ func (r *Raft) onAppendEntriesRequest(req *appendReq, c *conn) (rpcResult, error
 		}
 		prevTerm := term
 		index, term = ne.index, ne.term
-		if ne.index <= r.snaps.index {
+		if ne.index <= snapIndex {
 			continue
 		}
 		if ne.index <= r.lastLogIndex {
@@ -353,7 +357,7 @@ func (r *Raft) onInstallSnapRequest(req *installSnapReq, c *conn) (rpcResult, er
 
 		// restore fsm from this snapshot
 		r.fsm.ch <- fsmRestoreReq{r.fsmRestoredCh}
-		r.commitIndex = r.snaps.index
+		r.commitIndex, _ = r.snaps.latest()
 
 		// load snapshot config as cluster configuration
 		r.changeConfig(meta.config)
